@@ -133,7 +133,10 @@ def run(
                 map(lambda f: ["--config", str(f)], yaml_files)
             )
         )
-        command.extend(map(str, files_to_analyze or [execution_context.directory]))
+        # semgrep rejects the whole command when a target does not exist: a file
+        # removed since the project was listed must not abort the run
+        existing_files = [f for f in files_to_analyze or [] if Path(f).exists()]
+        command.extend(map(str, existing_files or [execution_context.directory]))
         logger.debug("semgrep command: `%s`", " ".join(command))
         call = subprocess.run(
             command,
